@@ -86,8 +86,13 @@ class CropMonitor(taps.Monitor):
         exp = st["px"][sl]
         if res.pixels.dtype != exp.dtype:
             ctx.fail("crop_changed_the_dtype", cls=cls, mech="%s->%s" % (exp.dtype, res.pixels.dtype))
-        if res.pixels.shape != exp.shape or not np.array_equal(res.pixels, exp):
-            ctx.fail("cropped_pixels_are_not_the_source_block", cls=cls, mech=nd + (":clipped_" + side if outside else ":inside"),
+        if res.pixels.shape != exp.shape or not np.array_equal(res.pixels, exp, equal_nan=exp.dtype.kind == "f"):
+            nf = ""
+            if res.pixels.shape == exp.shape and exp.dtype.kind == "f":
+                bad = ~((res.pixels == exp) | (np.isnan(res.pixels) & np.isnan(exp)))
+                if bad.any() and not np.isfinite(exp[bad]).any():
+                    nf = ":only_at_" + ("nan" if np.isnan(exp[bad]).all() else "inf" if np.isinf(exp[bad]).all() else "non_finite") + "_pixels"
+            ctx.fail("cropped_pixels_are_not_the_source_block", cls=cls, mech=nd + (":clipped_" + side if outside else ":inside") + nf,
                      expected_shape=list(exp.shape), got_shape=list(res.pixels.shape))
         got_lms = {k: v.points for k, v in res.landmarks.items()} if res.has_landmarks else {}
         if list(got_lms) != list(st["lms"]):
@@ -259,6 +264,14 @@ def w_crop(ctx, rng, i):
     im = gen.image(rng, cls, shape=shp, n_channels=int(rng.integers(1, 6)), dtype=dt)
     for g in range(int(rng.integers(0, 3))):
         im.landmarks["g%d" % g] = gen.shape(rng, "PointCloud", d=d, n=4, scale=3.0)
+    nonfinite = False
+    if im.pixels.dtype.kind == "f" and rng.random() < 0.35:
+        # depth / log / ratio images: missing and unbounded values are ordinary pixel values that a crop copies like any other
+        k = rng.random(im.pixels.shape)
+        im.pixels[k < 0.08] = np.inf
+        im.pixels[(k >= 0.08) & (k < 0.16)] = -np.inf
+        im.pixels[(k >= 0.16) & (k < 0.24)] = np.nan
+        nonfinite = True
     kind = ["inside", "low", "high", "both", "wholly", "fractional"][(i // 60) % 6]
     s = np.array(shp, dtype=float)
     lo = np.array([rng.integers(0, max(1, v - 1)) for v in shp], dtype=float)
@@ -296,11 +309,23 @@ def w_crop(ctx, rng, i):
         except (ImageBoundaryError, ValueError):
             pass      # ValueError: the request is empty after flooring/ceiling (documented)
     if cls == "MaskedImage" and rng.random() < 0.5:
-        try:
-            im.crop_to_true_mask(boundary=int(rng.integers(0, 3)))
-        except (ImageBoundaryError, ValueError):
-            pass
-    ctx.count_case(("crop", cls, d, np.dtype(dt).name, kind, cons, rt), nontrivial=True,
+        if True:
+            bd = int(rng.integers(0, 4))
+            cb = bool(rng.random() < 0.5)
+            idx = np.argwhere(im.mask.pixels[0])
+            leaves = bool((idx.min(0) - bd < 0).any() or (idx.max(0) + bd > np.array(shp)).any())    # the padded box of true pixels leaves the image
+            ctx.tap("crop_to_true_mask_boundary_contract", "calls")
+            try:
+                im.crop_to_true_mask(boundary=bd, constrain_to_boundary=cb)
+                if leaves and not cb:
+                    ctx.fail("request_outside_the_image_not_refused", cls=cls, mech="crop_to_true_mask:silently_altered", boundary=bd)
+            except ImageBoundaryError:
+                if not leaves or cb:
+                    ctx.fail("boundary_error_raised_although_the_request_was_allowed", cls=cls, mech="crop_to_true_mask")
+            except ValueError:
+                pass
+            ctx.tap("crop_to_true_mask_boundary_contract", "checked")
+    ctx.count_case(("crop", cls, d, np.dtype(dt).name, kind, cons, rt, nonfinite), nontrivial=True,
                    sample={"cls": cls, "shape": list(shp), "min": lo.tolist(), "max": hi.tolist(), "constrain": cons} if i < 5 else None)
 
 
